@@ -1390,13 +1390,10 @@ private:
           }
           else if (isPlausibleEpochMs(expiryMs))
           {
-            const auto exp = fromEpochMs(expiryMs);
-            if (exp > now)
-            {
-              _kv[key] = std::move(value);
-              _expiry[key] = ExpiryEntry{exp, core::InvalidTimerId};
-            }
-            // else: already expired at load — drop the entry entirely.
+            // Kept even if already in the past: a later 'X'/'S' log record may
+            // extend or clear it. Expired entries are dropped after replay.
+            _kv[key] = std::move(value);
+            _expiry[key] = ExpiryEntry{fromEpochMs(expiryMs), core::InvalidTimerId};
           }
           // else: implausible (corrupt) expiry — drop the entry, mirroring the
           // 'E' log op's sanity-bound rejection (KTP-11). NOT kept as eternal.
@@ -1410,9 +1407,33 @@ private:
     }
 
     // Load log with enhanced error handling and corruption detection
+    // Expired entries are dropped only once replay is complete: an expiry that,
+    // taken alone, already lies in the past at load time may have been extended
+    // (expireAt) or cleared (persist, plain set) by a later record. Comparing
+    // each record with the load-time clock dropped such a key at its first
+    // record and then ignored the later 'X' as an orphan - a live key was lost.
+    auto dropExpired = [this, now]()
+    {
+      for (auto it = _expiry.begin(); it != _expiry.end();)
+      {
+        if (it->second.expiry <= now)
+        {
+          _kv.erase(it->first);
+          it = _expiry.erase(it);
+        }
+        else
+        {
+          ++it;
+        }
+      }
+    };
+
     std::ifstream log(_logPath, std::ios::binary);
     if (!log.is_open())
+    {
+      dropExpired();
       return; // No log file yet
+    }
 
     // End offset of the last complete record. Whatever follows it (a record torn
     // by a crash, or an unreadable length) is cut off once replay is done:
@@ -1523,17 +1544,8 @@ private:
         }
         std::vector<std::uint8_t> value(valLen);
         std::memcpy(value.data(), ptr, valLen);
-        const auto exp = fromEpochMs(expiryMs);
-        if (exp > now)
-        {
-          _kv[key] = std::move(value);
-          _expiry[key] = ExpiryEntry{exp, core::InvalidTimerId};
-        }
-        else
-        {
-          _kv.erase(key); // already expired → drop
-          _expiry.erase(key);
-        }
+        _kv[key] = std::move(value);
+        _expiry[key] = ExpiryEntry{fromEpochMs(expiryMs), core::InvalidTimerId};
       }
       else if (op == 'X')
       {
@@ -1553,16 +1565,7 @@ private:
         }
         else if (isPlausibleEpochMs(expiryMs))
         {
-          const auto exp = fromEpochMs(expiryMs);
-          if (exp > now)
-          {
-            _expiry[key] = ExpiryEntry{exp, core::InvalidTimerId};
-          }
-          else
-          {
-            _kv.erase(key); // expiry already past → drop the key
-            _expiry.erase(key);
-          }
+          _expiry[key] = ExpiryEntry{fromEpochMs(expiryMs), core::InvalidTimerId};
         }
         // implausible expiry → ignore
       }
@@ -1584,6 +1587,8 @@ private:
         throw KVStoreException("Failed to truncate torn log tail: " + ec.message());
       }
     }
+
+    dropExpired();
   }
 
   void writeLogEntry(char op, const std::string &key, const std::vector<std::uint8_t> &value,
